@@ -365,7 +365,12 @@ func cmdActors(args []string) int {
 				}
 				gsk := cloneGS(shown)
 				ad.gs = gsk
-				a.UpdateTableState(tableFor(gsk, ids, 0))
+				tv := tableFor(gsk, ids, 0)
+				if mode != "running0" {
+					// the competition clock has meanwhile raised the table's blind level: the running hand keeps its own
+					tv.State.BlindState = &pt.TableBlindState{Level: 2, Ante: gsk.Meta.Ante + 3, Dealer: gsk.Meta.Blind.Dealer*2 + 1, SB: gsk.Meta.Blind.SB*2 + 1, BB: gsk.Meta.Blind.BB*2 + 1}
+				}
+				a.UpdateTableState(tv)
 				time.Sleep(200 * time.Microsecond)
 				calls := ad.snapshot()
 				res := "none"
